@@ -1,10 +1,12 @@
 /* c17_sites.c — the ICDF tables and ftb values the codec REALLY passes to ec_enc_icdf/ec_dec_icdf (C17).
-   Linked with  -Wl,--wrap=ec_enc_icdf -Wl,--wrap=ec_dec_icdf : every call from the library's SILK and CELT
+   Linked with  -Wl,--wrap=ec_enc_icdf,--wrap=ec_dec_icdf (and the five symbols of the `alloc` mode): every call from the library's SILK and CELT
    objects goes through the recorders below (then on to the real function).  The public encoder/decoder are run
    over a spread of configurations on synthetic voiced/unvoiced/transient audio; every distinct (table pointer,
    ftb) pair that occurs is then examined:
      tie    <seed> <nframes>   one `I laplace icdf <ftb> <entries>` / `O known=1 ok=1` line per distinct table,
                                to be compared with the catalogue of OpusModel/Icdf.lean (suite `laplace`, op `icdf`)
+     alloc  <seed> <nframes>   one `I cwrs alloc …` / `O …` pair per REAL call of clt_compute_allocation made by the
+                               encoder and the decoder (also wrapped), for comparison with OpusModel/CeltAlloc.lean
      search <seed> <nframes>   property on the implementation alone: the table as used at that call site
                                (with the call site's ftb) is strictly decreasing, ends in 0, starts below 2^ftb,
                                and no symbol beyond the terminating 0 was ever coded; prints W / X / S lines   */
@@ -60,6 +62,53 @@ int __wrap_ec_dec_icdf(ec_dec *d, const unsigned char *icdf, unsigned ftb)
    int s = __real_ec_dec_icdf(d, icdf, ftb);
    note(icdf, ftb, s, 0);
    return s;
+}
+
+/* ---- the bit allocation as the codec really calls it (mode `alloc`): clt_compute_allocation and the four range
+   coder entry points it uses are wrapped; inputs, outputs and the coder calls made inside are printed as a
+   `cwrs alloc` protocol line (decoder side: the decoded values become the oracle). */
+#include "celt/modes.h"
+#include "celt/rate.h"
+#include "celt/celt.h"
+static int alloc_mode, in_alloc, a_nops; static long alloc_lines, alloc_skipped;
+static struct { int kind; unsigned v, ft; } a_ops[64];
+static void a_rec(int kind, unsigned v, unsigned ft) { if (in_alloc && a_nops < 64) { a_ops[a_nops].kind = kind; a_ops[a_nops].v = v; a_ops[a_nops].ft = ft; a_nops++; } }
+void __real_ec_enc_bit_logp(ec_enc *e, int val, unsigned logp);
+int __real_ec_dec_bit_logp(ec_dec *d, unsigned logp);
+void __real_ec_enc_uint(ec_enc *e, opus_uint32 fl, opus_uint32 ft);
+opus_uint32 __real_ec_dec_uint(ec_dec *d, opus_uint32 ft);
+void __wrap_ec_enc_bit_logp(ec_enc *e, int val, unsigned logp) { a_rec(0, val != 0, 2); __real_ec_enc_bit_logp(e, val, logp); }
+int __wrap_ec_dec_bit_logp(ec_dec *d, unsigned logp) { int v = __real_ec_dec_bit_logp(d, logp); a_rec(0, (unsigned)v, 2); return v; }
+void __wrap_ec_enc_uint(ec_enc *e, opus_uint32 fl, opus_uint32 ft) { a_rec(1, fl, ft); __real_ec_enc_uint(e, fl, ft); }
+opus_uint32 __wrap_ec_dec_uint(ec_dec *d, opus_uint32 ft) { opus_uint32 v = __real_ec_dec_uint(d, ft); a_rec(1, v, ft); return v; }
+int __real_clt_compute_allocation(const CELTMode *m, int start, int end, const int *offsets, const int *cap, int alloc_trim, int *intensity, int *dual_stereo,
+      opus_int32 total, opus_int32 *balance, int *pulses, int *ebits, int *fine_priority, int C, int LM, ec_ctx *ec, int encode, int prev, int signalBandwidth);
+int __wrap_clt_compute_allocation(const CELTMode *m, int start, int end, const int *offsets, const int *cap, int alloc_trim, int *intensity, int *dual_stereo,
+      opus_int32 total, opus_int32 *balance, int *pulses, int *ebits, int *fine_priority, int C, int LM, ec_ctx *ec, int encode, int prev, int signalBandwidth)
+{
+   int cb, j, in_int = *intensity, in_dual = *dual_stereo, ok = alloc_mode && m->nbEBands == 21, mycap[21];
+   if (ok) { init_caps(m, mycap, LM, C); for (j = 0; j < 21; j++) if (mycap[j] != cap[j]) ok = 0; if (!ok) alloc_skipped++; }
+   in_alloc = 1; a_nops = 0;
+   cb = __real_clt_compute_allocation(m, start, end, offsets, cap, alloc_trim, intensity, dual_stereo, total, balance, pulses, ebits, fine_priority,
+                                      C, LM, ec, encode, prev, signalBandwidth);
+   in_alloc = 0;
+   if (ok) {
+      printf("I cwrs alloc %s %d %d %d %d %d %d %d %d %d %d ", encode ? "enc" : "dec", start, end, C, LM, (int)total, alloc_trim,
+             encode ? in_int : 0, encode ? in_dual : 0, prev, signalBandwidth);
+      for (j = 0; j < 21; j++) printf("%s%d", j ? "," : "", j >= start && j < end ? offsets[j] : 0);
+      printf(" ");
+      if (encode || a_nops == 0) printf("-"); else for (j = 0; j < a_nops; j++) printf("%s%u", j ? "," : "", a_ops[j].v);
+      printf("\nO cb=%d bal=%d int=%d dual=%d p=", cb, (int)*balance, *intensity, *dual_stereo);
+      for (j = start; j < end; j++) printf("%s%d", j > start ? "," : "", pulses[j]);
+      printf(" e="); for (j = start; j < end; j++) printf("%s%d", j > start ? "," : "", ebits[j]);
+      printf(" f="); for (j = start; j < end; j++) printf("%s%d", j > start ? "," : "", fine_priority[j]);
+      printf(" ops=");
+      if (a_nops == 0) printf("-");
+      for (j = 0; j < a_nops; j++) { if (j) printf(","); if (a_ops[j].kind) printf("u%u/%u", a_ops[j].v, a_ops[j].ft); else printf("b%u", a_ops[j].v); }
+      printf("\n");
+      alloc_lines++;
+   }
+   return cb;
 }
 
 /* synthetic audio: voiced (harmonics of a gliding pitch, amplitude modulated), unvoiced noise, clicks, silence */
@@ -139,9 +188,11 @@ static int pr_tab(char *o, int cap, const unsigned char *t, int n)
 int main(int argc, char **argv)
 {
    int i, tie, nframes; long wit = 0, cases = 0; uint64_t seed;
-   if (argc < 4) { fprintf(stderr, "usage: c17_sites tie|search <seed> <nframes>\n"); return 64; }
+   if (argc < 4) { fprintf(stderr, "usage: c17_sites tie|search|alloc <seed> <nframes>\n"); return 64; }
    tie = !strcmp(argv[1], "tie"); seed = strtoull(argv[2], NULL, 10); nframes = atoi(argv[3]);
+   alloc_mode = !strcmp(argv[1], "alloc");
    run_codec(seed, nframes);
+   if (alloc_mode) { printf("# %ld real clt_compute_allocation calls (encoder and decoder), %ld skipped (cap differs from init_caps)\n", alloc_lines, alloc_skipped); return 0; }
    for (i = 0; i < nsites; i++) {
       const unsigned char *t = sites[i].t; unsigned ftb = sites[i].ftb;
       int len = sites[i].len, shown = len > 0 ? len : 16, ok = 1, s; char tb[600], in[800], ob[200];
